@@ -98,6 +98,11 @@ type Interp struct {
 	pool     []Value
 	timeFmtN int
 	md5Keys  map[string]int
+	known    map[*Term]*Term
+	knownLog []knownEntry
+	knownVer int
+	simpVer  int
+	simpCache map[*Term]*Term
 	egQueue  map[*Object][]*Func
 }
 
@@ -1648,7 +1653,7 @@ func (it *Interp) makeSlice(fr *frame, x *ssa.MakeSlice) {
 	it.require(st.Sle(ln, cp), "makeslice: cap out of range")
 	it.allocCheck(cp, it.ncells(et))
 	n := it.boundOf(cp, "make")
-	if bt, isB := under(et).(*types.Basic); it.ConcretizeAlloc && !cp.IsConst() && n <= 300 && ln == cp && isB && bt.Kind() == types.Uint8 {
+	if it.ConcretizeAlloc && !cp.IsConst() && n <= 300 && ln == cp {
 		// small symbolic size: fork on its value so that cursors derived from it stay concrete
 		v := it.concretize(cp)
 		cp = it.c64(int64(v))
